@@ -40,6 +40,12 @@ NPQ_KERNELS = [
     dict(name="Bench_Schwefel12_f", file=B, cls="Schwefe1_2", func="f"),
     dict(name="Bench_Rosenbrock_f", file=B, cls="Rosenbrock", func="f"),
     dict(name="Bench_Rastrigin_f", file=B, cls="Rastrigin", func="f", cos2pi="cs"),
+    # jDE's parameter regeneration (C15): which entries are redrawn (the mask of the first draw against the rate) and from what
+    # (the second draw, affinely mapped for F); `uniform(0, 1, size=n)` is the function parameter `draw <ordinal> n`
+    dict(name="jDE_get_mutate_F", file="optimizers/_jde.py", cls="jDE", func="_get_mutate_F", params=[], ret="VQ",
+         self_attrs=[("_F", "VQ"), ("_pop_size", "N"), ("_t_F", "S1"), ("_F_min", "S1"), ("_F_max", "S1")]),
+    dict(name="jDE_get_mutate_CR", file="optimizers/_jde.py", cls="jDE", func="_get_mutate_CR", params=[], ret="VQ",
+         self_attrs=[("_CR", "VQ"), ("_pop_size", "N"), ("_t_CR", "S1")]),
     # the mean squared error inside root_mean_square_error (C19): everything before the square root, which must still be taken of it
     dict(name="Metrics_mse", file="utils/_metrics.py", cls=None, func="root_mean_square_error", params=[("y_true", "VQ"), ("y_predict", "VQ")], ret="S1",
          until="rmse = np.sqrt(mean_squared_error)", returns="mean_squared_error"),
@@ -323,6 +329,7 @@ class TrQ:
         self.env = {p: k for p, k in cfg.get("params", [("x", "Q")])}
         self.lines = []
         self.n = 0
+        self.draws = 0
 
     def bind(self, expr):
         self.n += 1
@@ -344,6 +351,16 @@ class TrQ:
             if e.id not in self.env:
                 raise NotRecognised(f"unknown name {e.id}")
             return e.id, self.env[e.id]
+        if isinstance(e, ast.Attribute) and isinstance(e.value, ast.Name) and e.value.id == "self":
+            for a, k in self.cfg.get("self_attrs", []):
+                if a == e.attr:
+                    return "self" + a, k
+            raise NotRecognised(f"attribute self.{e.attr}")
+        if isinstance(e, ast.Compare) and len(e.ops) == 1 and isinstance(e.ops[0], ast.Lt):
+            (a, ka), (b, kb) = self.E(e.left), self.E(e.comparators[0])
+            if (ka, kb) != ("VQ", "S1"):
+                raise NotRecognised("< operand kinds")
+            return f"(NpQ.ltMask {a} {b})", "MB"
         if isinstance(e, ast.Attribute) and e.attr == "T":
             x, k = self.E(e.value)
             if k not in ("Q", "QT"):
@@ -372,6 +389,10 @@ class TrQ:
             (a, ka), (b, kb) = self.E(e.left), self.E(e.right)
             if (ka, kb) == ("VQ", "VQ"):
                 return self.bind(f"NpQ.vzip (fun a b => a {op} b) {a} {b}"), "VQ"
+            if ka == "VQ" and kb in ("S", "S1"):
+                return f"({a}.map (fun a => a {op} {b}))", "VQ"
+            if ka in ("S", "S1") and kb == "VQ":
+                return f"({b}.map (fun a => {a} {op} a))", "VQ"
             if ka in ("Q", "QT") and kb == "S":
                 return f"(NpQ.map (fun a => a {op} {b}) {a})", ka
             if ka == "S" and kb in ("Q", "QT"):
@@ -388,6 +409,19 @@ class TrQ:
                 if k != "Q":
                     raise NotRecognised("sum of a non-array (or of a transposed one)")
                 return f"(NpQ.sumRows {x})", "V"
+            if isinstance(f, ast.Attribute) and f.attr == "copy" and not e.args and not kw:
+                x, k = self.E(f.value)
+                if k != "VQ":
+                    raise NotRecognised("copy of a non-vector")
+                return x, "VQ"
+            if isinstance(f, ast.Name) and f.id == "uniform" and len(e.args) == 2 and ast.unparse(e.args[0]) == "0.0" and ast.unparse(e.args[1]) == "1.0" and list(kw) == ["size"]:
+                n, k = self.E(kw["size"])
+                if k != "N":
+                    raise NotRecognised("size of a draw")
+                self.draws += 1
+                return f"(draw {self.draws - 1} {n})", "VQ"
+            if is_np(f, "sum") and len(e.args) == 1 and not kw and isinstance(e.args[0], ast.Name) and self.env.get(e.args[0].id) == "MB":
+                return f"(NpQ.countTrue {e.args[0].id})", "N"
             if is_np(f, "mean") and len(e.args) == 1 and not kw:
                 x, k = self.E(e.args[0])
                 if k != "VQ":
@@ -423,10 +457,20 @@ class TrQ:
         if not body or not isinstance(body[-1], ast.Return) or body[-1].value is None:
             raise NotRecognised("the function does not end in a return")
         for st in body[:-1]:
+            # v[mask] = <vector>
+            if isinstance(st, ast.Assign) and len(st.targets) == 1 and isinstance(st.targets[0], ast.Subscript) and isinstance(st.targets[0].value, ast.Name) \
+                    and isinstance(st.targets[0].slice, ast.Name) and self.env.get(st.targets[0].value.id) == "VQ" and self.env.get(st.targets[0].slice.id) == "MB":
+                v, m = st.targets[0].value.id, st.targets[0].slice.id
+                x, k = self.E(st.value)
+                if k != "VQ":
+                    raise NotRecognised("masked assignment of a non-vector")
+                t = self.bind(f"NpQ.maskScatter {v} {m} {x}")
+                self.lines.append(f"  let {v} := {t}")
+                continue
             if not (isinstance(st, ast.Assign) and len(st.targets) == 1 and isinstance(st.targets[0], ast.Name)):
                 raise NotRecognised("statement " + ast.unparse(st)[:60])
             x, k = self.E(st.value)
-            if k not in ("Q", "QT", "VQ", "S1"):
+            if k not in ("Q", "QT", "VQ", "S1", "MB", "N"):
                 raise NotRecognised("assigned kind")
             self.lines.append(f"  let {st.targets[0].id} := {x}")
             self.env[st.targets[0].id] = k
@@ -434,10 +478,13 @@ class TrQ:
         if k != cfg.get("ret", "V"):
             raise NotRecognised("returned kind")
         self.lines.append(f"  return {x}")
-        lean_k = {"Q": "NpQ.Mat", "VQ": "List Rat"}
-        params = ([f"({cfg['cos2pi']} : Rat → Rat)"] if cfg.get("cos2pi") else []) + [f"({p} : {lean_k[k_]})" for p, k_ in plist]
+        lean_k = {"Q": "NpQ.Mat", "VQ": "List Rat", "N": "Nat", "S1": "Rat"}
+        params = ([f"({cfg['cos2pi']} : Rat → Rat)"] if cfg.get("cos2pi") else []) + (["(draw : Nat → Nat → List Rat)"] if self.draws else []) \
+            + [f"(self{a} : {lean_k[k_]})" for a, k_ in cfg.get("self_attrs", [])] + [f"({p} : {lean_k[k_]})" for p, k_ in plist]
         cls_txt = (cfg["cls"] + ".") if cfg["cls"] else ""
         ret_ty = "Rat" if cfg.get("ret") == "S1" else "List Rat"
+        if cfg.get("ret") == "VQ" and k != "VQ":
+            raise NotRecognised("returned kind")
         return ("/- GENERATED by harness/extract/np2lean.py from src/thefittest/" + cfg["file"] + f" ({cls_txt}{cfg['func']}) — do not edit -/\n"
                 + "import TFV.Model.NpQ\nnamespace TFV.Generated.Src\nopen TFV\n\n"
                 + f"def {cfg['name']} " + " ".join(params) + f" : Option ({ret_ty}) := do\n" + "\n".join(self.lines) + "\n\nend TFV.Generated.Src\n")
